@@ -1,5 +1,5 @@
 (* C07 -- model entry points and comparison for the correspondence run. *)
-From PyGql Require Import Run.Driver Exec.CoerceModel Proofs.CoerceCheck.
+From PyGql Require Import Run.Driver Exec.CoerceModel Proofs.CoerceCheck Proofs.CoerceAgreeCheck.
 From Coq Require Import ZArith.
 
 (* what the implementation did: a value, a documented rejection family
@@ -40,7 +40,12 @@ Inductive case_C07 :=
           (* the same @custom application written in SDL on a type and applied
              as a schema directive (build_schema: coerce_argument_values
              without variables); None when not applicable *)
-          (osdl : option obs07).
+          (osdl : option obs07)
+(* the two serialisations of ONE real py_gql schema whose Query.f takes the
+   arguments defs: this property's (s, defs) and the validation model's
+   (harness/ser_valid.py): the premises schema_agreeb / field_args_agreeb of
+   C07_validated_request_sound_checked, evaluated *)
+| CaseAgree (s : schema) (defs : list ifield) (s' : PyGql.Valid.ValidSchema.schema).
 
 Fixpoint pv_eqb (a b : pv) {struct a} : bool :=
   match a, b with
@@ -112,6 +117,9 @@ Definition spec_check_C07 (c : case_C07) : bool :=
   | CaseAbs s _ _ _ _ items =>
       schema_okb s
       && forallb (fun it => args_okb s (fst it) && obs_kwargs_ok s (fst it) (snd it)) items
+  | CaseAgree s defs s' =>
+      schema_okb s && args_okb s defs && schema_agreeb s s'
+      && field_args_agreeb s' (str_of_string "Query"%string) (str_of_string "f"%string) defs
   | CaseDir s cdefs _ _ _ _ _ ocustom osdl =>
       schema_okb s && args_okb s cdefs
       && match ocustom with Some o => obs_kwargs_ok s cdefs o | None => true end
@@ -120,6 +128,7 @@ Definition spec_check_C07 (c : case_C07) : bool :=
 
 Definition agree_model_C07 (c : case_C07) : bool :=
   match c with
+  | CaseAgree _ _ _ => true
   | CaseVal s t j o => same (fun v => v) (model_val s t j) o
   | CaseLit s t l vs o => same (fun v => v) (model_lit s t l vs) o
   | CaseExec s defs vds call raw ovars oargs oexec =>
@@ -173,6 +182,7 @@ Definition agree_C07 (c : case_C07) : bool := agree_model_C07 c && spec_check_C0
 (* diagnostics *)
 Definition model_C07 (c : case_C07) :=
   match c with
+  | CaseAgree _ _ _ => (Ok PNone, None, None)
   | CaseVal s t j _ => (model_val s t j, None, None)
   | CaseLit s t l vs _ => (model_lit s t l vs, None, None)
   | CaseExec s defs vds call raw _ _ _ =>
